@@ -24,7 +24,13 @@
 // evaluated in float64, class "f_<class>"; the driver admits such a case only if its exact
 // clearance is at least 1e-6 x magnitude. Another 16th of the cases is the lattice case scaled
 // by an exact power of two (2^-60..2^-10, 2^1..2^40), class "p_<class>": exact oracle, no
-// clearance question.
+// clearance question. A third 16th is scaled by an extreme power of two (2^-530..2^-62,
+// 2^42..2^496: as far as every product of two ordinate differences stays exact), class
+// "x_<class>", judged like p_.
+//
+// Class perp_foot builds non-intersecting pairs whose nearest points include the foot of a
+// perpendicular (point over the interior of a sloped segment, parallel segments, facing polygon
+// edges); half of it goes through x_.
 //
 // Class multi_hole builds polygons with 2..4 non-rectangular, disjoint holes whose envelopes
 // overlap or nest, in a random order, with the other operand inside one of the holes.
@@ -1715,6 +1721,7 @@ var classes = []class{
 	{"gc_overlap", 4, false, (*gen).clsGCOverlap},
 	{"near_line", 4, false, (*gen).clsNearLine},
 	{"multi_hole", 6, false, (*gen).clsMultiHole},
+	{"perp_foot", 5, false, (*gen).clsPerpFoot},
 }
 
 // symmetry applies one random symmetry of the common bounding box (flips, transposition) to all
@@ -1772,6 +1779,11 @@ func place(r *lib.Rng, ss ...*sh) {
 	}
 }
 
+// exponents of the extreme power-of-two stream x_ (see main)
+var xExps = []int{-530, -500, -400, -300, -280, -270, -265, -260, -200, -100, 100, 200, 250, 256, 260, 300, 400, 490, 496}
+
+const xExpMin, xExpMax = -530, 496
+
 func bucket(n int) string {
 	switch {
 	case n == 0:
@@ -1797,6 +1809,7 @@ func main() {
 	}
 	nClass, nPair, nSize := map[string]int{}, map[string]int{}, map[string]int{}
 	var nInter, nNotInter, nInterNonEmpty, nNonEmpty, nEmptyOperand, nInvalidAB, nInvalidAny, nPanic, nErr int
+	var nXneg, nXpos int
 	for i := 0; i < args.N; i++ {
 		r := root.Fork()
 		pickw := r.Intn(total)
@@ -1854,6 +1867,20 @@ func main() {
 		// 10..60 (three times out of four) or 2^+k with k in 1..40. Every float operation of the
 		// implementation commutes with that scaling, so the case is the lattice case at another
 		// magnitude (1e-18 .. 1e+15): the exact oracle applies unchanged, no clearance question.
+		//
+		// x_<class> (i%16 == 11): the same with an extreme exponent, 2^k with k one of xExps or
+		// uniform in xExpMin..-62 / 42..xExpMax (magnitudes 1e-157 .. 1e+152). The bounds are the
+		// range in which every product of TWO ordinate differences and every sum of two such
+		// products (all that the orientation tests, dot and cross products, squared box distances
+		// of the Intersects / Distance code form) is still exact: |difference| <= 2^(11+k), so
+		// |sum of two products| <= 2^(23+2k) < 2^1024 for k <= 500, and an integer multiple of
+		// 2^(2k) below 2^(23+2k) is a float64 (possibly subnormal) for 2k >= -1074. Hypot and the
+		// final division scale exactly as long as the result is normal. So the exact answer is the
+		// lattice answer times 2^k, and the true distance (0 or between 2^(k-12) and 2^(k+12)) is a
+		// normal float64.
+		// Measured on the unchanged library: bit-for-bit equal to the scaled lattice result for
+		// every k in -537..500, wrong from k = -538 / 501 on (where the quantifier's "every
+		// orientation test is exact in float64" no longer holds).
 		dump, cname := zDump, cl.name
 		var tr func(n *lib.Node, f func(x, y float64) (float64, float64))
 		tr = func(n *lib.Node, f func(x, y float64) (float64, float64)) {
@@ -1865,8 +1892,11 @@ func main() {
 			}
 		}
 		sel := i % 16
-		if cl.name == "near_line" { // half of this class through p_, a quarter through f_
-			sel = []int{7, 15, 7, 0}[i%4]
+		switch cl.name {
+		case "near_line": // 3/8 of this class through p_, a quarter through f_, 1/8 through x_
+			sel = []int{7, 15, 7, 0, 7, 15, 11, 0}[i%8]
+		case "perp_foot": // half of this class through x_, 1/8 each through p_ and f_
+			sel = []int{11, 7, 11, 0, 11, 15, 11, 0}[i%8]
 		}
 		switch {
 		case sel == 15 && len(a.segs())+len(b.segs())+len(c.segs()) <= 24:
@@ -1893,6 +1923,25 @@ func main() {
 			tr(nb, f)
 			tr(nc, f)
 			dump, cname = lib.Dump, "p_"+cl.name
+		case sel == 11:
+			k := pickI(r, xExps)
+			if r.Bool() {
+				k = r.Range(42, xExpMax)
+				if r.Chance(3, 5) {
+					k = -r.Range(62, -xExpMin)
+				}
+			}
+			sc := math.Ldexp(1, k)
+			f := func(x, y float64) (float64, float64) { return x * sc, y * sc }
+			tr(na, f)
+			tr(nb, f)
+			tr(nc, f)
+			dump, cname = lib.Dump, "x_"+cl.name
+			if k < 0 {
+				nXneg++
+			} else {
+				nXpos++
+			}
 		}
 		ga := na.Build()
 		gb := nb.Build()
@@ -1946,7 +1995,7 @@ func main() {
 		"nonempty_cases": nNonEmpty, "intersects_true_nonempty": nInterNonEmpty,
 		"empty_operand": nEmptyOperand, "invalid_a_or_b": nInvalidAB, "invalid_any": nInvalidAny,
 		"segments_a_plus_b": nSize, "panic_fields": nPanic, "error_fields": nErr,
-		"validate_panics": validatePanics,
+		"validate_panics": validatePanics, "extreme_pow2_negative": nXneg, "extreme_pow2_positive": nXpos,
 	})
 	fmt.Fprintf(w, "#GEN\t%s\n", js)
 }
